@@ -321,7 +321,7 @@ class C05(Prop):
             'and decorated (blanks/tabs at token boundaries, redundant brackets); parse(text).simplify().matches(m) is compared with a '
             'three-valued reference evaluator for every message (undetermined outcomes skipped and counted) and canonical vs decorated on all '
             'messages. A case is non-trivial when one of its matchers selects some but not all messages and has >= 2 syntactic features '
-            '(list, exclusion, args, connection prefix, wildcard, new/destroyed, incarnation); distinct by SHA-1 of the case.')
+            '(list, exclusion, args, connection prefix, wildcard, new/destroyed, incarnation); distinct by SHA-1 of the case. gdb-universe: universes built through the GDB plugin in which connections are destroyed and re-created; connection parts are evaluated against the names the reference model gives the connections.')
     assumptions = ['reference semantics = DESIGN appendix A (written from matchers.md and the statement)',
                    'grammar bounds: no empty alternatives/exclusion lists, no * inside exclusions, no object labels as argument values, '
                    'string atoms without quotes/brackets/parentheses/commas/!']
